@@ -143,13 +143,11 @@ theorem opLock_inv (db : DB) (c : Cmd) (h : DBInv db) : DBInv (opLock db c).1 :=
   | update h' =>
     have hm := classifyLock_mem db c h' (by rw [hb]; rfl)
     simp only [applyLock]
-    exact setKey_inv (h.of_keys_eq (updateHold_db_keys _ _ _)) (replace_inv hk hm (updateHold_depth _ _ _))
+    exact wake_setKey_inv _ h (updateHold_db_keys _ _ _) (replace_inv hk hm (updateHold_depth _ _ _))
   | relock h' =>
     have hm := classifyLock_mem db c h' (by rw [hb]; rfl)
     simp only [applyLock]
-    apply setKey_inv
-    · exact h.of_keys_eq (by simp [updateHold_db_keys])
-    · exact relock_inv hk hm (by rw [updateHold_depth])
+    exact wake_setKey_inv _ h (by simp [updateHold_db_keys]) (relock_inv hk hm (by rw [updateHold_depth]))
   | grant =>
     simp only [applyLock]
     have hg := grantHold_inv db (db.getKey c.key) c hk
@@ -172,7 +170,7 @@ theorem opUnlock_inv (db : DB) (c : Cmd) (h : DBInv db) : DBInv (opUnlock db c).
   | stateError | notLocked | unown | cancelNone => exact h.of_keys_eq rfl
   | cancel w =>
     simp only [applyUnlock]
-    exact setKey_inv (h.of_keys_eq rfl) (waiters_inv hk _ _)
+    exact wake_setKey_inv _ h rfl (waiters_inv hk _ _)
   | dec h' c' =>
     have hm := classifyUnlock_mem db c h' (by rw [hb]; rfl)
     have hd := classifyUnlock_dec db c c' h' hb
@@ -185,7 +183,7 @@ theorem opUnlock_inv (db : DB) (c : Cmd) (h : DBInv db) : DBInv (opUnlock db c).
 
 theorem fireTimeout_inv (db : DB) (key : Nat) (w : Waiter) (h : DBInv db) : DBInv (fireTimeout db key w).1 := by
   unfold fireTimeout
-  exact setKey_inv (h.of_keys_eq rfl) (waiters_inv (getKey_inv h _) _ _)
+  exact wake_setKey_inv _ h rfl (waiters_inv (getKey_inv h _) _ _)
 
 theorem fireExpire_inv (db : DB) (key : Nat) (hd : Hold) (hm : hd ∈ (db.getKey key).holders) (h : DBInv db) :
     DBInv (fireExpire db key hd).1 := by
